@@ -1068,6 +1068,7 @@ class HtmlBlock(BlockToken):
     """
     _end_cond = None
     multiblock = re.compile(r'<(pre|script|style|textarea)[ \t>\n]', re.IGNORECASE)
+    _multiblock_ends = ('</pre>', '</script>', '</style>', '</textarea>')
     predefined = re.compile(r'<\/?(.+?)(?:\/?>|[ \n])')
     custom_tag = re.compile(r'(?:' + '|'.join((span_token._open_tag,
                                 span_token._closing_tag)) + r')\s*$')
@@ -1131,7 +1132,9 @@ class HtmlBlock(BlockToken):
         for line in lines:
             line_buffer.append(line)
             if cls._end_cond is not None:
-                if cls._end_cond in line.casefold():
+                # (a block of the first kind ends at the end tag of any of the four elements)
+                end_conds = cls._multiblock_ends if cls._end_cond in cls._multiblock_ends else (cls._end_cond,)
+                if any(end_cond in line.casefold() for end_cond in end_conds):
                     break
             elif line.strip() == '':
                 line_buffer.pop()
